@@ -561,9 +561,15 @@ def main(run):
     run.explore('bundle', cs, run_case, budget_s=300, chunksize=1)
     run.explore('history', history_cases(run.tier), run_history, budget_s=600, chunksize=2)
     run.explore('input', input_cases(run.tier), run_input, budget_s=300, chunksize=2)
+    # the summary table of dassh.out through which a user reads this property (vf/props/reports.py)
+    from . import reports
+    run.explore('report-geometry', reports.cases_geometry(run.tier), reports.run_geometry, budget_s=300)
 
 
 def replay(body):
+    if str((body.get('scenario') or {}).get('probe', '')).startswith('report-'):
+        from . import reports
+        return reports.replay(body)
     from ..run import guarded
     fn = {'history': run_history, 'input': run_input}.get(body['scenario'].get('probe'), run_case)
     r = guarded(fn, body['scenario'], 600)
